@@ -485,3 +485,98 @@ Proof.
   intros p H. exists (enc_packet p). unfold write_packet. rewrite (wf_packet_writable p H).
   split; [reflexivity|apply packet_roundtrip; exact H].
 Qed.
+
+(* ================= C04: the written message is well-framed ================= *)
+Require Import SD.Walker SD.Framing.
+
+Lemma walk_rr_written r pre post : rr_rt r ->
+  exists e, walk_rr (pre ++ enc_rr r ++ post) (len pre) = Some (e, len pre + len (enc_rr r)) /\
+            rr_matches r e /\ e_start e = len pre /\ e_end e = len pre + len (enc_rr r).
+Proof.
+  intros H. destruct (parse_rr_framed _ _ _ _ (H pre post)) as (e & Hw & Hs & He & Hm & _).
+  exists e. split; [exact Hw|]. split; [exact Hm|]. split; [exact Hs|symmetry; exact He].
+Qed.
+
+Lemma walk_question_written q pre post : wf_question q ->
+  exists e, walk_question (pre ++ enc_question q ++ post) (len pre) = Some (e, len pre + len (enc_question q)) /\ q_matches q e.
+Proof.
+  intros H. destruct (parse_question_framed _ _ _ _ (parse_question_enc q pre post H)) as (e & Hw & Hm). exists e. split; assumption.
+Qed.
+
+Lemma walk_section_written {A B} (W : list byte -> N -> option (B * N)) (E : A -> list byte) (M : A -> B -> Prop) (OK : A -> Prop) :
+  (forall x pre post, OK x -> exists e, W (pre ++ E x ++ post) (len pre) = Some (e, len pre + len (E x)) /\ M x e) ->
+  forall xs pre post, Forall OK xs ->
+  exists es, walk_section W (length xs) (pre ++ List.concat (map E xs) ++ post) (len pre)
+             = Some (es, len pre + len (List.concat (map E xs))) /\ Forall2 M xs es.
+Proof.
+  intros HW. induction xs as [|x r IH]; intros pre post Hok; cbn [length walk_section map List.concat].
+  - exists []. split; [f_equal; f_equal; unfold len; cbn; lia|constructor].
+  - rewrite <- app_assoc. destruct (HW x pre (List.concat (map E r) ++ post) (Forall_inv Hok)) as (e & -> & Hm).
+    replace (pre ++ E x ++ List.concat (map E r) ++ post) with ((pre ++ E x) ++ List.concat (map E r) ++ post)
+      by (rewrite <- !app_assoc; reflexivity).
+    replace (len pre + len (E x)) with (len (pre ++ E x)) by (rewrite len_app; reflexivity).
+    destruct (IH (pre ++ E x) post (Forall_inv_tail Hok)) as (es & -> & Hf).
+    exists (e :: es). split; [f_equal; f_equal; rewrite !len_app; lia|constructor; assumption].
+Qed.
+
+(* every serialised message: a 12-byte header whose four counts are the numbers of questions and records written (the OPT
+   pseudo-record counted once), followed by exactly those entries in order, each RDLENGTH delimiting its RDATA, and nothing else *)
+Theorem written_message_framed : forall p, wf_packet p ->
+  exists w xs, walk (enc_packet p) = Some w /\ w_end w = len (enc_packet p) /\
+    xs = (match popt p with Some o => opt_record o (hdr p) :: adds p | None => adds p end) /\
+    length (w_qs w) = length (qs p) /\ length (w_ans w) = length (ans p) /\ length (w_nss w) = length (nss p) /\
+    length (w_adds w) = length xs /\
+    Forall2 q_matches (qs p) (w_qs w) /\ Forall2 rr_matches (ans p) (w_ans w) /\ Forall2 rr_matches (nss p) (w_nss w) /\
+    Forall2 rr_matches xs (w_adds w).
+Proof.
+  intros p [Hid Hop Hrc (i & Hi & Hfl) Hext Hopt Hqs Hans Hnss Hadds (Cq & Ca & Cn & Cx)].
+  set (xs := match popt p with Some o => opt_record o (hdr p) :: adds p | None => adds p end).
+  assert (Hxs_enc : (match opt_rr p with Some r => enc_rr r | None => [] end) ++ List.concat (map enc_rr (adds p))
+                    = List.concat (map enc_rr xs)).
+  { unfold xs, opt_rr. destruct (popt p) as [o|]; reflexivity. }
+  assert (Hxs_len : len xs = len (adds p) + opt_count p).
+  { unfold xs, opt_count. destruct (popt p); [rewrite len_cons; lia|lia]. }
+  assert (RT : forall l, Forall wf_rr l -> Forall rr_rt l).
+  { intros l Hl. eapply Forall_impl; [|exact Hl]. intros x Hx pre post. apply parse_rr_enc. exact Hx. }
+  assert (Hxs_rt : Forall rr_rt xs).
+  { unfold xs. destruct (popt p) as [o|] eqn:Eo; [|apply RT; exact Hadds]. constructor; [|apply RT; exact Hadds].
+    intros pre post. apply parse_opt_record; [apply Hopt; reflexivity|exact Hrc]. }
+  unfold enc_packet. rewrite Hxs_enc.
+  set (bq := List.concat (map enc_question (qs p))). set (ba := List.concat (map enc_rr (ans p))).
+  set (bn := List.concat (map enc_rr (nss p))). set (bx := List.concat (map enc_rr xs)).
+  unfold enc_packet_header.
+  replace ((len (adds p) mod 65536 + match popt p with Some _ => 1 | None => 0 end) mod 65536) with (len xs).
+  2:{ rewrite Hxs_len. unfold opt_count in *. rewrite (N.mod_small (len (adds p))) by (destruct (popt p); lia).
+      rewrite N.mod_small; [reflexivity|destruct (popt p); lia]. }
+  change (write_header (hdr p) (len (qs p)) (len (ans p)) (len (nss p)) (len xs))
+    with (hdr_bytes (h_id (hdr p)) (get_flags (hdr p)) (len (qs p)) (len (ans p)) (len (nss p)) (len xs)).
+  set (H12 := hdr_bytes (h_id (hdr p)) (get_flags (hdr p)) (len (qs p)) (len (ans p)) (len (nss p)) (len xs)).
+  assert (L12 : len H12 = 12) by apply len_hdr_bytes.
+  unfold walk.
+  destruct (be_at_hdr (h_id (hdr p)) (get_flags (hdr p)) (len (qs p)) (len (ans p)) (len (nss p)) (len xs) (bq ++ ba ++ bn ++ bx))
+    as (P0 & P2 & P4 & P6 & P8 & P10). fold H12 in P0, P2, P4, P6, P8, P10. rewrite P0, P2, P4, P6, P8, P10.
+  rewrite (N.mod_small (len (qs p))), (N.mod_small (len (ans p))), (N.mod_small (len (nss p))), (N.mod_small (len xs)) by lia.
+  rewrite !to_nat_len.
+  destruct (walk_section_written walk_question enc_question q_matches wf_question
+              (fun x pre post Hx => walk_question_written x pre post Hx) (qs p) H12 (ba ++ bn ++ bx) Hqs) as (eq & S1 & F1).
+  rewrite L12 in S1. fold bq in S1. rewrite S1.
+  assert (WR : forall l pre post, Forall rr_rt l ->
+            exists es, walk_section walk_rr (length l) (pre ++ List.concat (map enc_rr l) ++ post) (len pre)
+                       = Some (es, len pre + len (List.concat (map enc_rr l))) /\ Forall2 rr_matches l es).
+  { intros l pre post Hl.
+    apply (walk_section_written walk_rr enc_rr rr_matches rr_rt); [|exact Hl].
+    intros x pre0 post0 Hx. destruct (walk_rr_written x pre0 post0 Hx) as (e & Hw & Hm & _). exists e. split; assumption. }
+  destruct (WR (ans p) (H12 ++ bq) (bn ++ bx) (RT _ Hans)) as (ea & S2 & F2). fold ba in S2.
+  rewrite len_app, L12 in S2. rewrite <- app_assoc in S2. rewrite S2.
+  destruct (WR (nss p) (H12 ++ bq ++ ba) bx (RT _ Hnss)) as (en & S3 & F3). fold bn in S3.
+  rewrite !len_app, L12 in S3. rewrite <- !app_assoc in S3. rewrite N.add_assoc in S3. rewrite S3.
+  destruct (WR xs (H12 ++ bq ++ ba ++ bn) [] Hxs_rt) as (ex & S4 & F4). fold bx in S4.
+  rewrite !len_app, L12 in S4. rewrite <- !app_assoc in S4. rewrite app_nil_r in S4. rewrite !N.add_assoc in S4. rewrite S4.
+  eexists. exists xs. split; [reflexivity|]. cbn [w_end w_qs w_ans w_nss w_adds].
+  split; [rewrite !len_app, L12; lia|]. split; [reflexivity|].
+  repeat split; try assumption; symmetry; eapply Forall2_len; eassumption.
+Qed.
+
+(* each record's RDLENGTH equals the number of RDATA bytes written: len() agrees with write_to for every RDATA *)
+Theorem rdlength_is_written_length : forall r, wf_rdata r -> len_rdata r = len (enc_rdata r).
+Proof. intros r H. apply len_rdata_enc. exact H. Qed.
